@@ -8,13 +8,16 @@ use elvis_core::{
         udp::Udp,
         Arp, Pci,
     },
+    network::{VerifFrameEventKind, VerifFramePlan},
     run_internet_with_timeout, IpTable, Network,
 };
+use std::sync::atomic::{AtomicU64, Ordering};
+use std::sync::Arc;
 use hcommon::*;
 use std::time::Duration;
 
 /// one simulation; returns (status, per-client address)
-pub fn one_sim(n: usize, pool: (u32, u32), workers: usize) -> (String, Vec<Option<u32>>) {
+pub fn one_sim(n: usize, pool: (u32, u32), workers: usize, hook_seed: Option<u64>) -> (String, Vec<Option<u32>>) {
     let rt = if workers == 0 {
         tokio::runtime::Builder::new_current_thread().enable_all().start_paused(true).build().unwrap()
     } else {
@@ -22,6 +25,22 @@ pub fn one_sim(n: usize, pool: (u32, u32), workers: usize) -> (String, Vec<Optio
     };
     rt.block_on(async move {
         let network = Network::basic();
+        if let Some(seed) = hook_seed {
+            // every frame (ARP and IPv4 alike) is delivered at once, delayed (reordering) or duplicated
+            let ctr = Arc::new(AtomicU64::new(0));
+            network.verif_set_hook(Some(Arc::new(move |ev| {
+                if ev.kind != VerifFrameEventKind::Send {
+                    return VerifFramePlan::Deliver;
+                }
+                let k = ctr.fetch_add(1, Ordering::SeqCst);
+                let mut r = Rng::new(seed ^ k.wrapping_mul(0x9E37_79B9_7F4A_7C15));
+                match r.below(10) {
+                    0..=3 => VerifFramePlan::Deliver,
+                    4..=7 => VerifFramePlan::Delay(Duration::from_millis(r.below(40))),
+                    _ => VerifFramePlan::Duplicate(Duration::from_millis(r.below(40))),
+                }
+            })));
+        }
         let server_ip = Ipv4Address::new([123, 123, 123, 123]);
         let ip_table: IpTable<Recipient> = [("0.0.0.0/0", Recipient::new(0, None))].into_iter().collect();
         let mut machines = vec![new_machine_arc![
@@ -51,7 +70,7 @@ pub fn one_sim(n: usize, pool: (u32, u32), workers: usize) -> (String, Vec<Optio
 }
 
 /// parameters of simulation number `idx` of a run (same function in parent and child)
-fn params(seed: u64, idx: u64) -> (usize, (u32, u32), usize) {
+fn params(seed: u64, idx: u64) -> (usize, (u32, u32), usize, Option<u64>) {
     let mut r = Rng::new(seed ^ idx.wrapping_mul(0x9E37_79B9_7F4A_7C15));
     let n = if idx < 16 { idx as usize + 1 } else { r.range(1, 16) as usize };
     let size = match r.below(4) {
@@ -67,7 +86,13 @@ fn params(seed: u64, idx: u64) -> (usize, (u32, u32), usize) {
     };
     // every fifth simulation on a real multi-thread runtime (real time, short timeout)
     let workers = if idx % 5 == 4 { *r.pick(&[2usize, 4]) } else { 0 };
-    (n, (start as u32, (start + size - 1) as u32), workers)
+    // two of five (paused runtime only) over a hooked network: per-frame delay (reordering) and
+    // duplication; duplicated Discovers burn addresses, so these use the large pool
+    if idx % 5 == 1 || idx % 5 == 3 {
+        let start = if start + 254 > 0xFFFF_FFFF { 0xFFFF_FFFF - 254 } else { start };
+        return (n, (start as u32, (start + 254) as u32), 0, Some(seed ^ idx));
+    }
+    (n, (start as u32, (start + size - 1) as u32), workers, None)
 }
 
 /// hidden sub-command: run simulations `first .. first+count`, one flushed line each
@@ -76,10 +101,10 @@ pub fn child(args: &Args) {
     let first: u64 = args.extra.get("first").and_then(|s| s.parse().ok()).unwrap_or(0);
     let count: u64 = args.extra.get("count").and_then(|s| s.parse().ok()).unwrap_or(1);
     for idx in first..first + count {
-        let (n, pool, workers) = params(args.seed, idx);
+        let (n, pool, workers, hook) = params(args.seed, idx);
         println!("begin {}", idx);
         std::io::stdout().flush().unwrap();
-        let (st, ips) = one_sim(n, pool, workers);
+        let (st, ips) = one_sim(n, pool, workers, hook);
         let ips: Vec<String> = ips.iter().map(|a| a.map(|x| x.to_string()).unwrap_or("-".into())).collect();
         println!("done {} {} {}", idx, st, ips.join(","));
         std::io::stdout().flush().unwrap();
@@ -88,7 +113,7 @@ pub fn child(args: &Args) {
 
 pub fn run(args: &Args) {
     let mut out = Out::new(&args.out);
-    let rule = "real simulations (run_internet, Network::basic): one DhcpServer and n DhcpClients (n = 1..16, the first 16 simulations use every n once) started together; pool size n, n+1, n+2..20 or 255, also ending at 255.255.255.255; 4 of 5 on a paused current_thread runtime, 1 of 5 on a multi_thread runtime with 2 or 4 workers; oracle: every client got an address, all inside the pool, pairwise distinct; non-trivial if n >= 2";
+    let rule = "real simulations (run_internet, Network::basic): one DhcpServer and n DhcpClients (n = 1..16, the first 16 simulations use every n once) started together; pool size n, n+1, n+2..20 or 255, also ending at 255.255.255.255; 4 of 5 on a paused current_thread runtime (half of those over a hooked network that delays = reorders and duplicates frames at random), 1 of 5 on a multi_thread runtime with 2 or 4 workers; oracle: every client got an address, all inside the pool, pairwise distinct; non-trivial if n >= 2";
     let exe = std::env::current_exe().unwrap();
     let total = args.cases;
     let batch = 8u64;
@@ -115,8 +140,9 @@ pub fn run(args: &Args) {
         }
         let mut resume = next + count;
         for idx in next..next + count {
-            let (n, pool, workers) = params(args.seed, idx);
-            let op = format!("sim {} {} {} {}", n, pool.0, pool.1, workers);
+            let (n, pool, workers, hook) = params(args.seed, idx);
+            let op = format!("sim {} {} {} {} {}", n, pool.0, pool.1, workers, if hook.is_some() { "hooked" } else { "plain" });
+            out.count(if hook.is_some() { "network.hooked" } else { "network.plain" });
             out.begin_case(idx);
             out.count(&format!("clients.{:02}", n));
             out.count(&format!("workers.{}", workers));
